@@ -98,6 +98,7 @@ func (k *key) email() string { return strings.ToLower(k.name) + "@example.com" }
 
 type keyset struct {
 	g    *gpgHome
+	g2   *gpgHome // a second, key-less home: what someone who only knows a passphrase has
 	keys []*key
 	ring openpgp.EntityList // all entities, with private keys
 	pub  openpgp.EntityList // the same keys, public halves only (Entity.Serialize -> ReadKeyRing)
@@ -179,6 +180,9 @@ func newKeyset() (*keyset, error) {
 	}
 	var goSec bytes.Buffer
 	for _, s := range goSpecs {
+		if mon.RaceBuild {
+			s.cfg.RSABits = 1024 // key generation under the race detector is 10x slower
+		}
 		e, err := openpgp.NewEntity(s.name, "", strings.ToLower(s.name)+"@example.com", s.cfg)
 		if err != nil {
 			g.close()
@@ -271,7 +275,24 @@ func newKeyset() (*keyset, error) {
 	return ks, nil
 }
 
-func (ks *keyset) close() { ks.g.close() }
+func (ks *keyset) close() {
+	ks.g.close()
+	if ks.g2 != nil {
+		ks.g2.close()
+	}
+}
+
+// passphraseOnlyGPG returns a gpg home without any key.
+func (ks *keyset) passphraseOnlyGPG() *gpgHome {
+	if ks.g2 == nil {
+		g, err := newGPGHome()
+		if err != nil {
+			return nil
+		}
+		ks.g2 = g
+	}
+	return ks.g2
+}
 
 // verifyKeysUnchanged: the entities handed to every call of the run still
 // serialise to the same public key as at setup (the package must not modify
